@@ -610,7 +610,7 @@ func judgeC07(c c07Case) (v core.Verdict) {
 
 func TestC07(t *testing.T) {
 	core.Run(t, "C07",
-		"programs over local names a,b,c plus names that exist as Execute variable, global, both and built-in: :=, =, multi-assignment, discard, prints, isset and '.' probes nested (depth<=5) in if (with declaring header)/range (all forms, := and =)/block (with/without parameters and context)/yield-with-content/include (with/without context, name and context read from the dot of a range)/try, globals added to the Set by Go code the running template calls, isset() of a template executed for the answer that fails inside range / if-let / block-with-context / yield content, and the capture idiom over slices, interface slices, arrays, maps, channels, ints(), indexed and index-less custom Rangers; round 10: isset() also asked through a Go function that calls Arguments.IsSet; oracle = MiniJet reference interpreter (expected output or expected failure) and the caller's VarMap after Execute; non-trivial = a probe after a construct that declared or shadowed names, or a capture from a loop variable",
+		"programs over local names a,b,c plus names that exist as Execute variable, global, both and built-in: :=, =, multi-assignment, discard, prints, isset and '.' probes nested (depth<=5) in if (with declaring header)/range (all forms, := and =)/block (with/without parameters and context)/yield-with-content/include (with/without context, name and context read from the dot of a range)/try, globals added to the Set by Go code the running template calls, isset() of a template executed for the answer that fails inside range / if-let / block-with-context / yield content, and the capture idiom over slices, interface slices, arrays, maps, channels, ints(), indexed and index-less custom Rangers; round 10: isset() also asked through a Go function that calls Arguments.IsSet; round 11: a sum of two Go integers kept in an outer variable while later iterations compute other sums; oracle = MiniJet reference interpreter (expected output or expected failure) and the caller's VarMap after Execute; non-trivial = a probe after a construct that declared or shadowed names, or a capture from a loop variable",
 		genC07, judgeC07)
 }
 
